@@ -25,9 +25,10 @@ package multiendpoint
 
 // ---------------------------------------------------------------- MEInv (lock invariant of the embedded RWMutex)
 
-//@ inv multiEndpoint.RWMutex M0 [C13] := this.endpoints != nil
-//@ inv multiEndpoint.RWMutex M1 [C13] := forall id, e in this.endpoints :: e != nil && isa(e) && e.id == id
-//@ inv multiEndpoint.RWMutex M2 [C13] := this.current in this.endpoints
+//@ inv multiEndpoint.RWMutex M0 [C13 C15 C16] := this.endpoints != nil
+//@ inv multiEndpoint.RWMutex M1 [C13 C15 C16] := forall id, e in this.endpoints :: e != nil && isa(e) && e.id == id
+// M2 (current is a member) is what the abstract clause of MultiEndpoint.Current used by GCPMultiEndpoint (C15, C16) rests on
+//@ inv multiEndpoint.RWMutex M2 [C13 C15 C16] := this.current in this.endpoints
 //@ inv multiEndpoint.RWMutex M4 [C13 C14] := forall id, e in this.endpoints :: e.status == recovering ==> this.recoveryTimeout != 0
 
 //@ inv multiEndpoint.RWMutex M5 [C13] := this.endpoints[this.current].status == unavailable ==> noneAvail(this)
@@ -54,12 +55,12 @@ package multiendpoint
 //@ pred c14NoDowngrade(me *multiEndpoint) := !(oldCurKept(me) && me.endpoints[old(me.current)].status == available && me.current != old(me.current) && me.endpoints[me.current].priority > me.endpoints[old(me.current)].priority)
 
 //@ func (me *multiEndpoint) Current
-//@   ensures [C13.current-member] result == me.current && result in me.endpoints
+//@   ensures [C13,C15,C16 current-member] result == me.current && result in me.endpoints
 //@ pred listed(me *multiEndpoint, list []string, upto int) := forall j, x in list :: j <= upto ==> x in me.endpoints && me.endpoints[x].priority == j
 //@ func (me *multiEndpoint) SetEndpoints
 //@   requires [C13.assume-nodup] forall j1, x1 in endpoints :: forall j2, x2 in endpoints :: j1 != j2 ==> x1 != x2
-//@   ensures [C13.reject-empty] len(endpoints) == 0 ==> result != nil && me.current == old(me.current) && (forall id string :: (id in me.endpoints) == old(id in me.endpoints))
-//@   ensures [C13.set-dom] len(endpoints) > 0 ==> result == nil && (forall j, x in endpoints :: x in me.endpoints) && (forall id in me.endpoints :: exists j, x in endpoints :: x == id)
+//@   ensures [C13,C15,C16 reject-empty] len(endpoints) == 0 ==> result != nil && me.current == old(me.current) && (forall id string :: (id in me.endpoints) == old(id in me.endpoints))
+//@   ensures [C13,C15,C16 set-dom] len(endpoints) > 0 ==> result == nil && (forall j, x in endpoints :: x in me.endpoints) && (forall id in me.endpoints :: exists j, x in endpoints :: x == id)
 //@   ensures [C13.removed-first] len(endpoints) > 0 && noneAvail(me) && !oldCurKept(me) ==> me.current == endpoints[0]
 //@   ensures [C13.switch-now] c13SwitchNow(me)
 //@   ensures [C13.sticky] c13Sticky(me)
@@ -88,7 +89,7 @@ package multiendpoint
 //@   ensures [C14.no-extend] !avail && old(e in me.endpoints && me.endpoints[e].status == recovering) ==> me.endpoints[e].status == recovering && me.endpoints[e].lastChange == old(me.endpoints[e].lastChange)
 //@   ensures [C13,C14 no-reopen] !avail && old(e in me.endpoints && me.endpoints[e].status != available) ==> me.endpoints[e].status == old(me.endpoints[e].status) && me.endpoints[e].lastChange == old(me.endpoints[e].lastChange)
 //@   ensures [C14.available-cancels] avail && old(e in me.endpoints) ==> me.endpoints[e].status == available
-//@   ensures [C13.members-kept] forall id string :: (id in me.endpoints) == old(id in me.endpoints)
+//@   ensures [C13,C15,C16 members-kept] forall id string :: (id in me.endpoints) == old(id in me.endpoints)
 //@ func (me *multiEndpoint) maybeUpdateCurrent
 //@   inline
 //@   loop 1 invariant topA != nil ==> topA.id in me.endpoints && me.endpoints[topA.id] == topA && topA.status == available && $visited(topA.id)
@@ -99,7 +100,7 @@ package multiendpoint
 //@   captures me != nil && me.switchingDelay != 0
 //@   ensures [C13.sticky] c13Sticky(me)
 //@   ensures [C14.no-downgrade] c14NoDowngrade(me)
-//@   ensures [C13.members-kept] forall id string :: (id in me.endpoints) == old(id in me.endpoints)
+//@   ensures [C13,C15,C16 members-kept] forall id string :: (id in me.endpoints) == old(id in me.endpoints)
 //@ func (me *multiEndpoint) scheduleUnavailable$1
 //@   captures me != nil && e != nil
 //@   ensures [C13.switch-now] c13SwitchNow(me)
@@ -109,7 +110,7 @@ package multiendpoint
 //@   ensures [C14.delay-holds] c14DelayHolds(me)
 //@   ensures [C14.no-downgrade] c14NoDowngrade(me)
 //@   ensures [C14.outdated-timer] old(e.lastChange) != stateChange ==> me.current == old(me.current) && e.status == old(e.status) && e.lastChange == old(e.lastChange)
-//@   ensures [C13.members-kept] forall id string :: (id in me.endpoints) == old(id in me.endpoints)
+//@   ensures [C13,C15,C16 members-kept] forall id string :: (id in me.endpoints) == old(id in me.endpoints)
 // Abstract view used by GCPMultiEndpoint (package grpcgcp): $meHas[mekey(m, e)] = "e is an endpoint of m". The two
 // abstraction clauses restate C13.new on that view; they are assumed at the call sites, not checked here.
 //@ func NewMultiEndpoint
